@@ -171,6 +171,28 @@ def regenerate():
     return True, out, time.time() - t0
 
 
+def restore_good_gen():
+    """replace every generated table that is a failure stub by its last known good copy (lean/GenGood); returns the
+    names replaced"""
+    good = os.path.join(LEAN, "GenGood")
+    gen = os.path.join(LEAN, "Gv/Gen")
+    done = []
+    if not os.path.isdir(good):
+        return done
+    for f in sorted(os.listdir(gen)):
+        p = os.path.join(gen, f)
+        g = os.path.join(good, f)
+        try:
+            with open(p) as fh:
+                head = fh.read(300)
+        except OSError:
+            continue
+        if "FAILED" in head and os.path.exists(g):
+            shutil.copy(g, p)
+            done.append(f)
+    return done
+
+
 def lake_build(targets):
     t0 = time.time()
     rc, out = run(["lake", "build"] + targets, cwd=LEAN, timeout=3600)
@@ -880,10 +902,24 @@ def generic_check(mod, tier, seed):
         p = write_replay(mod.ID, "harness-build", {"obligation": "harness-builds-against-working-tree", "output": hout[-3000:]})
         res.violations.append(("harness does not build against the working tree", hout[-200:], p, True))
         return finish(res, mod, [], 0, 0, "harness build failed")
+    stale_model = []
+    if not oracle_ok:
+        # The regenerated tables no longer compile (a translator stage could not follow the source).  To still SEARCH
+        # for a failing input, fall back to the last known good copy of exactly those tables (lean/GenGood, a snapshot
+        # of lean/Gv/Gen taken on the unchanged tree): the property predicate of the oracle does not depend on them,
+        # only the model side does (which is then stale, and reported as such).
+        with Lock():
+            stale_model = restore_good_gen()
+            if stale_model:
+                ook, _, _, _ = lake_build([ORACLE])
+                oracle_ok = ook and os.path.exists(oracle_path())
     if not oracle_ok:
         p = write_replay(mod.ID, "model-build", {"obligation": "model/oracle build", "broken": broken, "output": bout[-3000:]})
         res.violations.append(("model or regenerated tables no longer compile: " + "; ".join(broken_names)[:300], "", p, True))
         return finish(res, mod, [], 0, 0, "oracle build failed")
+    if stale_model:
+        res.add_obligation("oracle rebuilt on the last known good copy of " + ",".join(stale_model) +
+                           " to search for a failing input (model side stale)", False, "tie", "")
 
     # ---- correspondence + property predicate on the implementation's results ----------------
     search_tier = tier
